@@ -248,7 +248,7 @@ func c38Sig(pc *ProgCase, events []string, result string) string {
 }
 
 func selfTestC38(c *core.Ctx) error {
-	raw := []byte(`{"body":{"0":[{"k":"defer","g":1},{"k":"panic","v":1}],"1":[{"k":"rec"}]},"log":[["R",1,1,1,true,0]],"outcome":["done",0]}`)
+	raw := []byte(`{"body":{"0":[{"k":"defer","g":1},{"k":"L"}],"1":[{"k":"L"}]},"log":[["L",0,2,false,1],["L",1,1,true,2]],"outcome":["done",0]}`)
 	var rec c07Rec
 	json.Unmarshal(raw, &rec)
 	pc := c07Render(&rec, raw)
